@@ -238,6 +238,8 @@ def apply_action(mod, act, env, lib):
         return x[x > act["thresh"]]
     if a == "Unknown":
         return getattr(mod, act["op"])(X())
+    if a == "Random":
+        return make_random(mod, act)
     if a == "Persist":
         if lib == "np":
             return X()
@@ -268,6 +270,24 @@ def apply_action(mod, act, env, lib):
             return X().optimize()
         raise KeyError(e)
     raise KeyError(a)
+
+
+def make_random(da, act, seed_offset=0):
+    """a seeded random dask_array collection (lib 'da' only; the NumPy side uses the realized values)"""
+    shape = tuple(act["shape"])
+    chunks = tuple(tuple(c) for c in act["chunks"])
+    seed = act["seed"] + seed_offset
+    if act["gen"] == "RandomState":
+        rs = da.random.RandomState(seed)
+        f = {"randint": lambda: rs.randint(0, 50, size=shape, chunks=chunks), "poisson": lambda: rs.poisson(3.0, size=shape, chunks=chunks),
+             "normal": lambda: rs.normal(1.0, 2.0, size=shape, chunks=chunks), "uniform": lambda: rs.uniform(-1.0, 1.0, size=shape, chunks=chunks),
+             "random": lambda: rs.random_sample(size=shape, chunks=chunks)}[act["dist"]]
+    else:
+        rg = da.random.default_rng(seed)
+        f = {"randint": lambda: rg.integers(0, 50, size=shape, chunks=chunks), "poisson": lambda: rg.poisson(3.0, size=shape, chunks=chunks),
+             "normal": lambda: rg.normal(1.0, 2.0, size=shape, chunks=chunks), "uniform": lambda: rg.uniform(-1.0, 1.0, size=shape, chunks=chunks),
+             "random": lambda: rg.random(size=shape, chunks=chunks)}[act["dist"]]
+    return f()
 
 
 def _sval(v, kind):
@@ -486,6 +506,9 @@ def spec_value(arr, max_den=5000):
                 fr = Fraction(v).limit_denominator(max_den)
                 if abs(float(fr) - v) <= 1e-9 * max(1.0, abs(v)) and abs(fr.numerator) < 2 ** 20:
                     data.append([fr.numerator, fr.denominator])
+                elif abs(v) < 1000:
+                    # no small rational (e.g. a random draw): fixed-point form, compared by plain equality of the pair
+                    data.append([int(round(v * QUANT)), QUANT])
                 else:
                     data.append([int(max(min(v, 1e6), -1e6)), -1])
     elif k in ("b", "i"):
@@ -498,6 +521,7 @@ def spec_value(arr, max_den=5000):
     return {"shape": [int(x) for x in a.shape], "kind": k, "data": data}
 
 
+QUANT = 1000000
 RAISED = {"shape": [], "kind": "raised", "data": []}
 
 
@@ -513,6 +537,7 @@ def replay_one(beh, grids, observers=(), compute_all=True, opts=None, emit=None)
     problems = []
     gi = 0
     cur = []        # handle -> expected current denotation (in-place actions replace an entry)
+    env = list(env)          # random programs overwrite placeholder denotations with realized ones
     ctx = {"prog": prog, "grids": [list(map(list, g)) for g in grids], "da_env": da_env, "np_env": np_env, "env": env,
            "opts": opts or {}, "emit": emit if emit is not None else [], "cur": cur}
     last = len(prog) - 1
@@ -539,6 +564,30 @@ def replay_one(beh, grids, observers=(), compute_all=True, opts=None, emit=None)
                 for ob in observers:
                     ob(ctx, k, act, d, arr, problems)
             continue
+        if act["a"] == "Random":
+            # the specification cannot predict a realization: the first computed value of the base IS the realization,
+            # and from here on every collection of this program is judged against NumPy applied to it
+            try:
+                with warnings.catch_warnings():
+                    warnings.simplefilter("ignore")
+                    d = make_random(da, act)
+                    iosrc.set_phase("executing")
+                    real = np.asarray(d.compute(scheduler="sync"))
+            except Exception as ex:  # noqa
+                problems.append(("raised", f"action {k} Random: {type(ex).__name__}: {ex}"))
+                break
+            ctx["random"] = True
+            env[k] = spec_value(real)
+            np_env.append(real.copy())
+            cur.append(env[k])
+            da_env.append(d)
+            ctx.setdefault("random_bases", []).append((k, act, d, real.copy()))
+            if tuple(real.shape) != tuple(act["shape"]) or tuple(d.chunks) != tuple(tuple(c) for c in act["chunks"]):
+                problems.append(("shape", f"action {k} Random: shape {real.shape} chunks {d.chunks}, requested {act['shape']} {act['chunks']}"))
+            if not last_only or k == last:
+                for ob in observers:
+                    ob(ctx, k, act, d, real, problems)
+            continue
         expect_err = exp["kind"] == "err"
         inplace = act["a"] in INPLACE
         n0 = len(problems)
@@ -553,10 +602,14 @@ def replay_one(beh, grids, observers=(), compute_all=True, opts=None, emit=None)
         except Exception as ex:  # noqa
             np_err = ex
             nv = None
+        if ctx.get("random"):
+            # placeholder denotations downstream of a random base: NumPy on the realization is the oracle
+            expect_err = np_err is not None
+            exp = env[k] = ({"shape": [], "data": [], "kind": "err"} if expect_err else spec_value(nv))
         if expect_err != (np_err is not None):
             raise SpecMismatch(f"spec expects error={expect_err} but NumPy raised {np_err!r} for {act}")
-        want = env_to_np(exp)
-        if not expect_err:
+        want = env_to_np(exp) if not ctx.get("random") else (None if expect_err else np.asarray(nv))
+        if not expect_err and not ctx.get("random"):
             if tuple(np.shape(nv)) != tuple(exp["shape"]) or not same_values(nv, want, exp["kind"]) \
                     or kind_of(np.asarray(nv).dtype) != exp["kind"]:
                 raise SpecMismatch(
